@@ -44,6 +44,7 @@ type World struct {
 	nfCache        map[string]*nfCand
 	privSent       map[string][]string
 	coneAllIfaces  bool     // cone construction follows every in-repo interface (error-kind sweep)
+	coneBound      bool     // cone construction follows bound method values (f.hf.CreateAuthorizer handed to a helper)
 	errKind        *ErrKind // error-kind sweep in force
 	mutFields      map[string]bool
 	mutFieldsDone  bool
@@ -969,6 +970,34 @@ func (w *World) mechanismCone(prop string) []*Contract {
 	return w.coneContracts(roots, excluded, prop, func(c *Contract) { c.WriteFrame = true })
 }
 
+// providerCone: zero-annotation contracts "writeframe" for every function and closure declared in a
+// rule provider package (internal/rules/provider/<kind>) except the constructors (new*/New*), which
+// run before anything is shared. The callbacks of a provider run on scheduler, watcher and informer
+// goroutines next to each other: a plain write to memory that existed before the call is a candidate
+// data race, so each store must go to memory the call allocated itself; state kept between callbacks
+// lives in sync types (whose methods are trusted specs). The cone stays inside the provider packages.
+func (w *World) providerCone(prop string) []*Contract {
+	excluded := func(path string) bool {
+		return !strings.Contains(path, "/internal/rules/provider/") || strings.Contains(path, "/mocks")
+	}
+	var roots []*ssa.Function
+	for _, key := range sortedKeys(w.funcs) {
+		fn := w.funcs[key]
+		if fn == nil || fn.Blocks == nil || fn.Synthetic != "" || excluded(fnPkgPath(fn)) {
+			continue
+		}
+		top := fn
+		for top.Parent() != nil {
+			top = top.Parent()
+		}
+		if n := strings.ToLower(top.Name()); strings.HasPrefix(n, "new") || top.Name() == "init" {
+			continue
+		}
+		roots = append(roots, fn)
+	}
+	return w.coneContracts(roots, excluded, prop, func(c *Contract) { c.WriteFrame = true })
+}
+
 // rootsByPattern: in-repo functions whose key contains one of the substrings.
 func (w *World) rootsByPattern(pats []string) []*ssa.Function {
 	var out []*ssa.Function
@@ -1019,7 +1048,20 @@ func (w *World) coneContracts(roots []*ssa.Function, excluded func(string) bool,
 				case *ssa.Go:
 					cc = &x.Call
 				case *ssa.MakeClosure:
-					visit(x.Fn.(*ssa.Function), depth+1)
+					cf := x.Fn.(*ssa.Function)
+					if m, ok := cf.Object().(*types.Func); ok && w.coneBound && strings.HasPrefix(cf.Synthetic, "bound method wrapper") && len(x.Bindings) == 1 {
+						// a method value: the method itself, or - for an interface method - its in-repo implementations
+						rt := x.Bindings[0].Type()
+						if _, isIface := rt.Underlying().(*types.Interface); isIface {
+							for _, impl := range implsOf(rt, m) {
+								visit(impl, depth+1)
+							}
+						} else if f := w.prog.FuncValue(m); f != nil {
+							visit(f, depth+1)
+						}
+					} else {
+						visit(cf, depth+1)
+					}
 				}
 				if cc == nil {
 					continue
